@@ -28,7 +28,8 @@ from common import coq
 PID = "C22"
 LEVEL_TEXT = ("Machine-checked proof (Coq, closed under the global context) over a labelled transition system of "
               "one channel at critical-section granularity (close, shutdown, send/send_stderr = reserve under the "
-              "lock + emit after release, recv, peer EOF/CLOSE/FAILURE/WINDOW_ADJUST/DATA dispatch, _unlink) that for "
+              "lock + emit after release, including writers blocked in out_buffer_cv.wait and woken by "
+              "_window_adjust/close, recv, peer EOF/CLOSE/FAILURE/WINDOW_ADJUST/DATA dispatch, _unlink) that for "
               "ALL thread programs and ALL schedules: at most one EOF and one CLOSE reach the wire, a handled peer "
               "CLOSE on an active mapped channel is answered by exactly one CLOSE, the channel is then unmapped for "
               "ever and no later operation produces a message (sends raise), and in LOCK order no data follows "
@@ -36,13 +37,16 @@ LEVEL_TEXT = ("Machine-checked proof (Coq, closed under the global context) over
               "(C22_no_data_after_refuted), reproduced on the real code every run (known finding).  The model is tied "
               "to channel.py/transport.py by per-schedule comparison of enumerated interleavings on real Channel "
               "objects under a deterministic scheduler.")
-LEVEL_NOTE = ("Trusted: Coq kernel + vm_compute; the hand-written model coq/Model/C22.v and the identification of its "
+LEVEL_NOTE = ("Message numbers, the per-packet overhead (64), the window-threshold divisor and the extended-data code are "
+              "regenerated from common.py/channel.py by gen/c22.py (fail-closed) on every run.  "
+              "Trusted: Coq kernel + vm_compute; the hand-written model coq/Model/C22.v and the identification of its "
               "atomic steps with the code between switch points (validated by the enumeration, and by the "
               "lock-discipline oracle that flags any access to the shared flags outside the lock); channels run "
               "with timeout 0.0 or None (writers then block in out_buffer_cv.wait, an instrumented switch point); "
               "timed waits (0 < timeout) are not modelled; _pipe (fileno) and channel requests "
               "are outside the model; blocking is modelled for writers (out_buffer_cv) but not for recv.")
-TECHNIQUE = "Coq invariant proof over all schedules + deterministic-scheduler enumeration of real Channel objects"
+TECHNIQUE = ("Coq invariant proof over all schedules + deterministic-scheduler enumeration of real Channel objects "
+             "(blocking writers included) + fail-closed translator for the constants")
 
 CHANID = 7
 REMOTE = 11
@@ -75,6 +79,7 @@ class DetSched:
         self.anomalies = []
         self.hung = False
         self.cs_count = 0           # number of critical sections completed so far (lock order)
+        self.cs_flags = {}          # critical-section number -> (closed, eof_sent) when it STARTED
         self.epoch = 0              # number of notify_all() calls on out_buffer_cv
         self.blocked = [None] * n   # epoch at which the thread started waiting on out_buffer_cv
         self.deadlock = False       # the run ended with every unfinished thread blocked
@@ -134,11 +139,21 @@ class DetSched:
                 self.csem.release()
                 raise Abort()
             if nxt == t:
+                self.resumed()
                 return
             self.wsem[nxt].release()
         self.wsem[t].acquire()
         if not self.live:
             raise Abort()
+        self.resumed()
+
+    def resumed(self):
+        """the current thread starts a new step: if it is the first step of an operation, take the
+        operation's start snapshot now (not when the call was entered, which is thread-local time)"""
+        tls = self.tls
+        if getattr(tls, "need_start", False):
+            tls.need_start = False
+            tls.on_start()
 
     def sp_wait(self, mark):
         """switch point inside out_buffer_cv.wait(): not enabled until a notify_all after `mark`"""
@@ -225,6 +240,7 @@ class ILock:
         self.real = real
         self.sched = sched
         self.owner = None
+        self.flags = None       # callable returning (closed, eof_sent) of the channel, set by Run
 
     def acquire(self, blocking=True, timeout=-1):
         self.sched.sp()
@@ -232,8 +248,14 @@ class ILock:
             if self.sched.tid() is not None and self.sched.live:
                 self.sched.abort_run("channel lock held by a parked thread (a switch point inside a critical section)")
             self.real.acquire()
-        self.owner = threading.get_ident()
+        self.begin_cs()
         return True
+
+    def begin_cs(self):
+        self.owner = threading.get_ident()
+        sched = self.sched
+        if sched.tid() is not None and self.flags is not None:
+            sched.tls.cs_start = self.flags()
 
     def release(self):
         sched = self.sched
@@ -243,6 +265,7 @@ class ILock:
         if sched.tid() is not None:
             sched.cs_count += 1
             sched.tls.last_cs = sched.cs_count
+            sched.cs_flags[sched.cs_count] = getattr(sched.tls, "cs_start", (False, False))
         self.real.release()
 
     def held(self):
@@ -275,7 +298,7 @@ class ICond:
         sched.sp_wait(mark)
         if not self.lock.real.acquire(False):
             sched.abort_run("channel lock held by a parked thread (a switch point inside a critical section)")
-        self.lock.owner = threading.get_ident()
+        self.lock.begin_cs()        # the code after wait() is a new critical section
         return True
 
     def notify_all(self):
@@ -356,20 +379,25 @@ def make_classes():
 
 
 def decode_msg(raw):
-    """(code, arg, chanid)"""
+    """(canonical kind 93..97 used by the oracle, arg, chanid, raw type number, aux)
+    -- message numbers are the live paramiko.common constants; the raw number goes into the outcome that is
+    compared with the model (whose numbers are generated from the source by gen/c22.py)"""
+    from paramiko import common as pc
     t = raw[0]
     cid = struct.unpack(">I", raw[1:5])[0]
-    if t == 96 or t == 97:
-        return (t, 0, cid)
-    if t == 94:
+    if t == pc.MSG_CHANNEL_EOF:
+        return (96, 0, cid, t, 0)
+    if t == pc.MSG_CHANNEL_CLOSE:
+        return (97, 0, cid, t, 0)
+    if t == pc.MSG_CHANNEL_DATA:
         n = struct.unpack(">I", raw[5:9])[0]
-        return (94, n, cid) if len(raw) == 9 + n else (-94, n, cid)
-    if t == 95:
+        return (94 if len(raw) == 9 + n else -94, n, cid, t, 0)
+    if t == pc.MSG_CHANNEL_EXTENDED_DATA:
         code, n = struct.unpack(">II", raw[5:13])
-        return (95, n, cid) if code == 1 and len(raw) == 13 + n else (-95, n, cid)
-    if t == 93:
-        return (93, struct.unpack(">I", raw[5:9])[0], cid)
-    return (t, -1, cid)
+        return (95 if len(raw) == 13 + n else -95, n, cid, t, code)
+    if t == pc.MSG_CHANNEL_WINDOW_ADJUST:
+        return (93, struct.unpack(">I", raw[5:9])[0], cid, t, 0)
+    return (-1, -1, cid, t, 0)
 
 
 def canon_exc(e):
@@ -410,20 +438,21 @@ def do_op(chan, stub, sched, op):
         chan._unlink()
         return [0, 0]
     m = Message()
+    from paramiko import common as pc
     if k == "OPeerEof":
-        return [0, stub.dispatch(96, CHANID, m)]
+        return [0, stub.dispatch(pc.MSG_CHANNEL_EOF, CHANID, m)]
     if k == "OPeerClose":
-        return [0, stub.dispatch(97, CHANID, m)]
+        return [0, stub.dispatch(pc.MSG_CHANNEL_CLOSE, CHANID, m)]
     if k == "OPeerFail":
-        return [0, stub.dispatch(100, CHANID, m)]
+        return [0, stub.dispatch(pc.MSG_CHANNEL_FAILURE, CHANID, m)]
     if k == "OPeerWa":
         m.add_int(op[1])
         m.rewind()
-        return [0, stub.dispatch(93, CHANID, m)]
+        return [0, stub.dispatch(pc.MSG_CHANNEL_WINDOW_ADJUST, CHANID, m)]
     if k == "OPeerData":
         m.add_string(b"p" * op[1])
         m.rewind()
-        return [0, stub.dispatch(94, CHANID, m)]
+        return [0, stub.dispatch(pc.MSG_CHANNEL_DATA, CHANID, m)]
     raise ValueError(op)
 
 
@@ -432,15 +461,14 @@ class Run:
 
     def __init__(self, classes, init, progs, prefix, chooser, lenient=False):
         TChan, StubTransport = classes
-        act, blk, w, p, buf, th = init
+        act, blk, w, p, buf, inwin = init
         n = len(progs)
         self.sched = sched = DetSched(n, prefix, chooser)
         sched.lenient = lenient
         self.stub = stub = StubTransport(sched)
         self.chan = chan = TChan(CHANID)
         chan._set_transport(stub)
-        chan._set_window(th * 10, 1 << 15)
-        chan.in_window_threshold = th
+        chan._set_window(inwin, 1 << 15)     # threshold = inwin // 10 computed by the real code
         chan.remote_chanid = REMOTE
         chan.out_window_size = w
         chan.out_max_packet_size = p
@@ -453,6 +481,8 @@ class Run:
         chan.__dict__["_unlocked"] = set()
         chan.__dict__["lock"] = ILock(chan.__dict__["lock"], sched)
         chan.__dict__["out_buffer_cv"] = ICond(chan.__dict__["lock"], sched)
+        cd = chan.__dict__
+        cd["lock"].flags = lambda: (bool(cd["closed"]), bool(cd["eof_sent"]))
         self.cur = [0] * n
         chan.__dict__["_sched"] = sched
         self.progs = progs
@@ -470,7 +500,12 @@ class Run:
             for j, op in enumerate(self.progs[i]):
                 chan = self.chan
                 d = chan.__dict__
-                start = (len(self.stub.sent), bool(d["closed"]), bool(d["eof_sent"]))
+                start = [len(self.stub.sent), bool(d["closed"]), bool(d["eof_sent"])]
+
+                def on_start(start=start, d=d):
+                    start[:] = [len(self.stub.sent), bool(d["closed"]), bool(d["eof_sent"])]
+                sched.tls.on_start = on_start
+                sched.tls.need_start = True
                 sched.tls.cur = j
                 self.cur[i] = j
                 try:
@@ -483,8 +518,9 @@ class Run:
                     r = canon_exc(e)
                     if r == [1, 100]:
                         self.errors.append(repr(e))
+                sched.tls.need_start = False
                 self.results[i] += r
-                self.op_log.append((i, j, op, start, len(self.stub.sent), r))
+                self.op_log.append((i, j, op, tuple(start), len(self.stub.sent), r))
         except Abort:
             pass
         except BaseException as e:  # noqa
@@ -530,10 +566,11 @@ class Run:
     def outcome(self):
         chan, stub = self.chan, self.stub
         d = chan.__dict__
-        wire = [decode_msg(r) for r in stub.sent]
+        full = [decode_msg(r) for r in stub.sent]
+        wire = [(c, a, cid) for c, a, cid, _, _ in full]
         out = []
-        for c, a, _ in wire:
-            out += [c, a]
+        for c, a, cid, t, aux in full:
+            out += [t, a, aux]
         out.append(-1)
         for r in self.results:
             out += r + [-2]
@@ -636,6 +673,19 @@ def oracle(ctx, init, progs, schedule, run, wire):
             if any(t == i and cur == j for t, cur, _ in meta):
                 ctx.fail("message-after-release", "an operation started after EOF and CLOSE still sent a message",
                          case=case, expected="no message", observed=obs)
+    # nothing at all is produced by a critical section that started on a closed and EOF'd channel (that
+    # is what "released" means: C22_released / C22_released_ops_fail), and a critical section that started
+    # on a closed channel produces no WINDOW_ADJUST, DATA, EXTENDED_DATA or CLOSE
+    names = {93: "window-adjust", 94: "data", 95: "extended-data", 96: "eof", 97: "close"}
+    for idx, (c, a, _) in enumerate(wire):
+        cs = meta[idx][2]
+        cl0, eof0 = run.sched.cs_flags.get(cs, (False, False))
+        if cl0 and (eof0 or c in (93, 94, 95, 97)):
+            ctx.fail("sent-on-closed-channel:%s" % names.get(c, str(c)),
+                     "a %s message was produced by an operation that took the channel lock when the channel "
+                     "was already closed%s" % (names.get(c, str(c)).upper().replace("-", "_"),
+                                               " and EOF'd (released channel: nothing may be sent)" if eof0 else ""),
+                     case=case, expected="no message", observed=obs)
     # data after EOF / CLOSE on the wire
     verdict = None
     ends = []       # (wire index, thread, critical-section number) of EOF / CLOSE messages seen so far
@@ -665,28 +715,35 @@ def oracle(ctx, init, progs, schedule, run, wire):
 
 FIXED = [
     # (init, programs): always enumerated exhaustively
-    ((True, False, 100, 1000, 0, 10), [[("OSend", 5)], [("OClose",)]]),
-    ((True, False, 100, 1000, 0, 10), [[("OSendErr", 3)], [("OShutdown", 1)]]),
-    ((True, False, 100, 1000, 0, 10), [[("OShutdown", 1)], [("OClose",)]]),
-    ((True, False, 100, 1000, 0, 10), [[("OClose",)], [("OClose",)]]),
-    ((True, False, 100, 1000, 0, 10), [[("OShutdown", 1)], [("OShutdown", 2)]]),
-    ((True, False, 100, 1000, 0, 10), [[("OClose",), ("OSend", 4)], [("OPeerClose",), ("OPeerClose",)]]),
-    ((True, False, 100, 1000, 0, 10), [[("OPeerEof",), ("OPeerClose",)], [("OClose",)], [("OSend", 2)]]),
-    ((True, False, 100, 1000, 6, 2), [[("ORecv", 4), ("ORecv", 4)], [("OClose",)]]),
-    ((True, False, 100, 1000, 0, 2), [[("OPeerData", 5), ("OPeerEof",)], [("ORecv", 9), ("OShutdown", 0)]]),
-    ((True, False, 0, 1000, 0, 10), [[("OSend", 5), ("OSend", 5)], [("OPeerWa", 7)]]),
-    ((True, False, 100, 1000, 0, 10), [[("OUnlink",)], [("OPeerClose",)], [("OShutdown", 1)]]),
-    ((True, False, 100, 1000, 0, 10), [[("OPeerFail",)], [("OClose",)], [("OSend", 1)]]),
-    ((False, False, 100, 1000, 0, 10), [[("OClose",), ("OShutdown", 1)], [("OPeerClose",), ("OSend", 3)]]),
-    ((True, False, 100, 70, 0, 10), [[("OSend", 50)], [("OSendErr", 60)], [("OShutdown", 2)]]),
+    ((True, False, 100, 1000, 0, 109), [[("OSend", 5)], [("OClose",)]]),
+    ((True, False, 100, 1000, 0, 109), [[("OSendErr", 3)], [("OShutdown", 1)]]),
+    ((True, False, 100, 1000, 0, 109), [[("OShutdown", 1)], [("OClose",)]]),
+    ((True, False, 100, 1000, 0, 109), [[("OClose",)], [("OClose",)]]),
+    ((True, False, 100, 1000, 0, 109), [[("OShutdown", 1)], [("OShutdown", 2)]]),
+    ((True, False, 100, 1000, 0, 109), [[("OClose",), ("OSend", 4)], [("OPeerClose",), ("OPeerClose",)]]),
+    ((True, False, 100, 1000, 0, 109), [[("OPeerEof",), ("OPeerClose",)], [("OClose",)], [("OSend", 2)]]),
+    ((True, False, 100, 1000, 6, 27), [[("ORecv", 4), ("ORecv", 4)], [("OClose",)]]),
+    ((True, False, 100, 1000, 0, 27), [[("OPeerData", 5), ("OPeerEof",)], [("ORecv", 9), ("OShutdown", 0)]]),
+    ((True, False, 0, 1000, 0, 109), [[("OSend", 5), ("OSend", 5)], [("OPeerWa", 7)]]),
+    ((True, False, 100, 1000, 0, 109), [[("OUnlink",)], [("OPeerClose",)], [("OShutdown", 1)]]),
+    ((True, False, 100, 1000, 0, 109), [[("OPeerFail",)], [("OClose",)], [("OSend", 1)]]),
+    ((False, False, 100, 1000, 0, 109), [[("OClose",), ("OShutdown", 1)], [("OPeerClose",), ("OSend", 3)]]),
+    ((True, False, 100, 70, 0, 109), [[("OSend", 50)], [("OSendErr", 60)], [("OShutdown", 2)]]),
+    # plenty of unread data buffered when the channel gets closed / released (no peer EOF first): later recv
+    # calls cross the window threshold and must not send WINDOW_ADJUST
+    ((True, False, 100, 1000, 12, 27), [[("OClose",)], [("ORecv", 8), ("ORecv", 8)]]),
+    ((True, False, 100, 1000, 30, 109), [[("OPeerClose",)], [("ORecv", 16), ("ORecv", 16)]]),
+    ((True, False, 100, 1000, 0, 27), [[("OPeerData", 9), ("OPeerClose",)], [("ORecv", 64), ("ORecv", 64)]]),
+    ((True, False, 100, 1000, 20, 27), [[("OUnlink",)], [("ORecv", 8)], [("OShutdown", 1)]]),
+    ((True, False, 100, 1000, 20, 27), [[("OPeerFail",)], [("ORecv", 5), ("ORecv", 5), ("ORecv", 5)]]),
     # blocking sends (timeout None): writers waiting on out_buffer_cv
-    ((True, True, 0, 1000, 0, 10), [[("OSend", 5)], [("OShutdown", 1), ("OPeerWa", 7)]]),
-    ((True, True, 0, 1000, 0, 10), [[("OSend", 5)], [("OClose",)]]),
-    ((True, True, 0, 1000, 0, 10), [[("OSend", 5)], [("OPeerWa", 3)], [("OSendErr", 4)]]),
-    ((True, True, 0, 1000, 0, 10), [[("OSendErr", 5)], [("OPeerClose",)], [("OPeerWa", 2)]]),
-    ((True, True, 0, 1000, 0, 10), [[("OSend", 5), ("OSend", 2)], [("OPeerWa", 4), ("OShutdown", 1), ("OPeerWa", 2)]]),
-    ((True, True, 0, 1000, 0, 10), [[("OSend", 5)], [("OShutdown", 2)], [("OPeerWa", 1), ("OPeerWa", 1)]]),
-    ((True, True, 3, 1000, 0, 10), [[("OSend", 3), ("OSend", 3)], [("OUnlink",)], [("OPeerWa", 9)]]),
+    ((True, True, 0, 1000, 0, 109), [[("OSend", 5)], [("OShutdown", 1), ("OPeerWa", 7)]]),
+    ((True, True, 0, 1000, 0, 109), [[("OSend", 5)], [("OClose",)]]),
+    ((True, True, 0, 1000, 0, 109), [[("OSend", 5)], [("OPeerWa", 3)], [("OSendErr", 4)]]),
+    ((True, True, 0, 1000, 0, 109), [[("OSendErr", 5)], [("OPeerClose",)], [("OPeerWa", 2)]]),
+    ((True, True, 0, 1000, 0, 109), [[("OSend", 5), ("OSend", 2)], [("OPeerWa", 4), ("OShutdown", 1), ("OPeerWa", 2)]]),
+    ((True, True, 0, 1000, 0, 109), [[("OSend", 5)], [("OShutdown", 2)], [("OPeerWa", 1), ("OPeerWa", 1)]]),
+    ((True, True, 3, 1000, 0, 109), [[("OSend", 3), ("OSend", 3)], [("OUnlink",)], [("OPeerWa", 9)]]),
 ]
 
 
@@ -703,7 +760,7 @@ def gen_op(rng, role):
     if k in ("OSend", "OSendErr"):
         return (k, rng.choice([0, 1, 3, 8, 40, 200]))
     if k == "ORecv":
-        return (k, rng.choice([1, 4, 64]))
+        return (k, rng.choice([1, 4, 16, 64]))
     if k == "OPeerWa":
         return (k, rng.choice([1, 5, 50]))
     if k == "OPeerData":
@@ -723,7 +780,7 @@ def gen_case(rng):
         # a blocking recv would wait inside BufferedPipe (not instrumented): no recv in blocking cases
         progs = [[op if op[0] != "ORecv" else ("OPeerWa", rng.choice([1, 5])) for op in p] for p in progs]
     init = (rng.random() < 0.92, blk, rng.choice([0, 0, 4, 100] if blk else [0, 4, 100, 100]),
-            rng.choice([70, 1000, 1000]), rng.choice([0, 0, 3, 12]), rng.choice([2, 10]))
+            rng.choice([70, 1000, 1000]), rng.choice([0, 0, 3, 12, 40]), rng.choice([20, 27, 100, 109]))
     return init, progs
 
 
